@@ -44,11 +44,23 @@ theorem bgpPolicy_eq_eff (bv : Option Str) :
       simp only [h, Option.isSome_none, Bool.false_eq_true, if_false, hd]
       simp [bgpPolicy, h]
 
-/-- **Main theorem.**  For every raw Felix setting and every raw BGP setting (any string, or
+/-- Exactly one owner as BIRD's RENDERED IPv4 kernel filter decides it: `hasSubnet` = the node's
+`network_v4` key is present (without it `processIPPools` emits no IPv4 statement and the template's
+catch-all `accept` applies; the IPv6 filter always behaves as `hasSubnet = true`). -/
+def ExactlyOneK (hasSubnet : Bool) (fv : Str) (p : Policy) (ipip vxlan : Mode) : Prop :=
+  (felixPrograms felixTable fv ipip vxlan ≠ birdKernelV4 hasSubnet p ipip vxlan) ∧
+  (modeOn vxlan = true →
+    felixPrograms felixTable fv ipip vxlan = true ∧ birdKernelV4 hasSubnet p ipip vxlan = false)
+
+instance (hs : Bool) (fv : Str) (p : Policy) (i v : Mode) : Decidable (ExactlyOneK hs fv p i v) := by
+  unfold ExactlyOneK; exact inferInstance
+
+/-- Statement-level form (one kernel-filter statement per pool), helper for `exactly_one_owner`.
+For every raw Felix setting and every raw BGP setting (any string, or
 absent; on the BGP side also "no BGPConfiguration"), if the settings the two halves effectively
 act on form one of the supported pairings, then for every pool encapsulation mode the pool's
 cluster routes are programmed by exactly one of Felix and BIRD, and VXLAN pools by Felix. -/
-theorem exactly_one_owner (fv bv : Option Str)
+theorem exactly_one_owner_stmt (fv bv : Option Str)
     (hsup : (felixValue felixTable fv, bgpEff bgpTable bv) ∈ supportedPairs) (ipip vxlan : Mode) :
     ExactlyOne (felixValue felixTable fv) (bgpPolicy bgpTable bv) ipip vxlan := by
   rw [bgpPolicy_eq_eff]
@@ -57,6 +69,28 @@ theorem exactly_one_owner (fv bv : Option Str)
   have key : ∀ pr ∈ supportedPairs, ∀ i ∈ allModes, ∀ v ∈ allModes,
       ExactlyOne pr.1 (bgpPolicy bgpTable (some pr.2)) i v := by decide
   exact key (x, y) hsup ipip (by cases ipip <;> decide) vxlan (by cases vxlan <;> decide)
+
+/-- **Main theorem.**  HYPOTHESIS `hasSubnet = true`: the node's `network_v4` key is present (IPv4
+filter; the IPv6 filter needs no such hypothesis).  Then for every raw Felix setting and every raw
+BGP setting (any string, or absent; on the BGP side also "no BGPConfiguration"), if the settings the
+two halves effectively act on form one of the supported pairings, for every pool encapsulation mode
+the pool's cluster routes are programmed by exactly one of Felix and BIRD's rendered kernel filter,
+and VXLAN pools by Felix. -/
+theorem exactly_one_owner (hasSubnet : Bool) (hsub : hasSubnet = true) (fv bv : Option Str)
+    (hsup : (felixValue felixTable fv, bgpEff bgpTable bv) ∈ supportedPairs) (ipip vxlan : Mode) :
+    ExactlyOneK hasSubnet (felixValue felixTable fv) (bgpPolicy bgpTable bv) ipip vxlan := by
+  subst hsub
+  exact exactly_one_owner_stmt fv bv hsup ipip vxlan
+
+/-- The hypothesis is needed — Lean witness for `hasSubnet = false`, both settings absent (the
+default, supported pairing): BIRD's filter accepts a VXLAN pool and an IPIP pool that Felix programs
+too.  Reproduced on the real code by `corpus/C28/obs-c-no-network-v4.ops` (`dsub 0`); it is an
+OBSERVATION outside the property's quantifier (settings × pool modes), counted in the evidence as
+`obs:no-network_v4`, not evaluated by the oracle and not a KNOWN-FINDING. -/
+theorem no_network_v4_two_owners :
+    (felixValue felixTable none, bgpEff bgpTable none) ∈ supportedPairs ∧
+    ¬ ExactlyOneK false (felixValue felixTable none) (bgpPolicy bgpTable none) .never .always ∧
+    ¬ ExactlyOneK false (felixValue felixTable none) (bgpPolicy bgpTable none) .always .never := by decide
 
 /-- Not vacuous: the all-defaults configuration (both settings absent) is a supported pairing,
 and so is an unrecognised string on both sides. -/
@@ -88,7 +122,7 @@ theorem defaults_are_a_supported_pairing :
 settings, every pool mode has exactly one owner **iff** the pairing is a supported one. -/
 theorem exactly_one_iff_supported :
     ∀ f ∈ felixTable.oneof, ∀ b ∈ bgpTable.cases.map (·.1),
-      ((∀ i ∈ allModes, ∀ v ∈ allModes, ExactlyOne f (bgpPolicy bgpTable (some b)) i v) ↔
+      ((∀ i ∈ allModes, ∀ v ∈ allModes, ExactlyOneK true f (bgpPolicy bgpTable (some b)) i v) ↔
         (f, b) ∈ supportedPairs) := by decide
 
 /-- Felix recognises its setting case-insensitively and stores the canonical spelling
@@ -134,16 +168,16 @@ theorem felix_consumers_agree (v : Str) (ps : Pools) (vx6 bpf wg wg6 : Bool) (c 
   cases c <;> cases b1 <;> cases b2 <;> cases pi <;> cases pv <;> cases pn <;> cases vx6 <;>
     cases bpf <;> cases wg <;> cases wg6 <;> decide
 
-/-- **End to end.**  Supported effective pairing ⇒ for every pool class present, exactly one of
+/-- **End to end.**  `network_v4` present and supported effective pairing ⇒ for every pool class present, exactly one of
 Felix's dataplane and BIRD's kernel filter programs its cluster routes; VXLAN is Felix's. -/
-theorem exactly_one_owner_dataplane (fv bv : Option Str)
+theorem exactly_one_owner_dataplane (hasSubnet : Bool) (hsub : hasSubnet = true) (fv bv : Option Str)
     (hsup : (felixValue felixTable fv, bgpEff bgpTable bv) ∈ supportedPairs)
     (ps : Pools) (vx6 bpf wg wg6 : Bool) (c : PoolClass) (hc : ps.has c = true) :
     felixDataplanePrograms guards (felixEnv felixTable (felixValue felixTable fv) ps vx6 bpf wg wg6) c ≠
-      birdPrograms (bgpPolicy bgpTable bv) c.modes.1 c.modes.2 ∧
+      birdKernelV4 hasSubnet (bgpPolicy bgpTable bv) c.modes.1 c.modes.2 ∧
     (c = .vxlan → felixDataplanePrograms guards (felixEnv felixTable (felixValue felixTable fv) ps vx6 bpf wg wg6) c = true) := by
   have h1 := (felix_consumers_agree (felixValue felixTable fv) ps vx6 bpf wg wg6 c hc).1
-  have h2 := exactly_one_owner fv bv hsup c.modes.1 c.modes.2
+  have h2 := exactly_one_owner hasSubnet hsub fv bv hsup c.modes.1 c.modes.2
   rw [h1]
   refine ⟨h2.1, ?_⟩
   rintro rfl
@@ -209,7 +243,10 @@ example : let s := (Dyn.setClass felixTable guards felixTable.dflt (Dyn.start fe
 /-! ## confd side: the effective policy is a function of the CURRENT resource -/
 
 /-- After any history of syncer events for BGPConfiguration `default`, the cached resource is that
-of the LAST event (whatever was cached before). -/
+of the LAST event (whatever was cached before).  DEFINITIONAL: `confdStep` ignores the previous
+state by construction of the model; the content is the translator tie that `updateBGPConfigCache`
+assigns `c.globalBGPConfig = v3res` unconditionally (nil on delete) and the correspondence run of
+the real client.  Kept as the statement the model makes, not as a proof of the code. -/
 theorem confd_last_event_wins (st : Option (Option Str)) (hist : List BgpEvent) (e : BgpEvent) :
     confdRun st (hist ++ [e]) = confdStep none e := by
   simp only [confdRun, List.foldl_append, List.foldl_cons, List.foldl_nil]
